@@ -430,13 +430,19 @@ type scenario struct {
 	name     string
 	withMaps bool
 	depth    int
+	// prefix: the histories of this scenario all start with these operations (a non-initial start state: the pool
+	// already holds values) and then only DERIVE values (no further constructor calls); depth counts the derivations
+	prefix []Op
 }
+
+// the start state the library itself works from: one singleton set per parser index
+var singletons = []Op{{K: "newset", V: []int{0}}, {K: "newset", V: []int{1}}, {K: "newset", V: []int{2}}}
 
 func scenarios(tier string) []scenario {
 	if tier == "thorough" {
-		return []scenario{{"sets", false, 5}, {"sets+maps", true, 4}}
+		return []scenario{{"sets", false, 5, nil}, {"sets+maps", true, 4, nil}, {"derived-from-singletons", false, 5, singletons}}
 	}
-	return []scenario{{"sets", false, 4}, {"sets+maps", true, 3}}
+	return []scenario{{"sets", false, 4, nil}, {"sets+maps", true, 3, nil}, {"derived-from-singletons", false, 4, singletons}}
 }
 
 func run(env *explore.Env) *explore.Result {
@@ -453,11 +459,27 @@ func bfs(env *explore.Env, sc scenario, res *explore.Result) {
 	seen := map[string]bool{}
 	type node struct{ ops []Op }
 	root := newPool()
-	first := alphabet(root, sc.withMaps)
+	if sc.prefix != nil {
+		root, _, _ = runHistory(sc.prefix, false)
+	}
+	ops := func(p *pool) []Op {
+		all := alphabet(p, sc.withMaps)
+		if sc.prefix == nil {
+			return all
+		}
+		var derive []Op
+		for _, o := range all {
+			if !strings.HasPrefix(o.K, "new") {
+				derive = append(derive, o)
+			}
+		}
+		return derive
+	}
+	first := ops(root)
 	var frontier []node
 	for i, o := range first {
 		if env.Mine(int64(i)) {
-			frontier = append(frontier, node{[]Op{o}})
+			frontier = append(frontier, node{append(append([]Op{}, sc.prefix...), o)})
 		}
 	}
 	canMerge := true
@@ -513,7 +535,7 @@ func bfs(env *explore.Env, sc scenario, res *explore.Result) {
 				res.Outcome(fmt.Sprintf("map%v", last.mmap))
 			}
 			if depth < sc.depth {
-				for _, o := range alphabet(p, sc.withMaps) {
+				for _, o := range ops(p) {
 					ops := make([]Op, len(nd.ops)+1)
 					copy(ops, nd.ops)
 					ops[len(nd.ops)] = o
@@ -556,7 +578,7 @@ func init() {
 	explore.Register(&explore.Check{
 		ID:    "C15",
 		Level: "model_checking",
-		Rule: "explicit-state BFS over all operation histories (NewIntSet with <=3 args from {0,1,2} and with windows of one shared argument slice, Insert, Union, NewIntMap, Inc, Filter; " +
+		Rule: "explicit-state BFS over all operation histories (NewIntSet with <=3 args from {0,1,2} and with windows of one shared argument slice, Insert, Union, NewIntMap, Inc, Filter; plus all derivation-only histories (Insert/Union) starting from the pool {0},{1},{2}; " +
 			"Len/Each/Keys/Get observed on every pool member after every transition) on the real data.IntSet/IntMap values; state = pool contents + len/cap/alias class; " +
 			"non-trivial = a state in which some set has spare capacity or two values share a backing store (the situations in which in-place mutation can be observed)",
 		Assume: []string{
